@@ -183,3 +183,966 @@ Lemma C_complete_covers : forall N S avoid nfvs R cands, reduction_hyp N S avoid
 Proof.
   intros N S avoid nfvs R cands Hred HR Hc. apply (C_covers_ext N S avoid cands _ Hc). apply Hred. exact HR.
 Qed.
+
+(* ------------------------------------------------------------------------------------------ *)
+(* 3. Tape / log alignment                                                                     *)
+(* ------------------------------------------------------------------------------------------ *)
+(* [pinv T st]: the pipeline state [st] was obtained from the initial state
+   {| p_tape := T; p_log := [] |} by successful solver calls only: the consumed prefix of the
+   tape is as long as the log.  [ext_of L st]: the log of [st] is a prefix of [L]. *)
+Definition pinv (T : list (list state)) (st : pst) : Prop :=
+  exists pre, T = pre ++ p_tape st /\ length pre = length (p_log st).
+Definition ext_of (L : list call) (st : pst) : Prop := exists e, L = p_log st ++ e.
+Definition log_le (st st' : pst) : Prop := exists e, p_log st' = p_log st ++ e.
+
+Lemma C_log_le_refl : forall st, log_le st st.
+Proof. intros st. exists []. rewrite app_nil_r. reflexivity. Qed.
+
+Lemma C_log_le_trans : forall a b c, log_le a b -> log_le b c -> log_le a c.
+Proof.
+  intros a b c [e1 H1] [e2 H2]. exists (e1 ++ e2). rewrite H2, H1, app_assoc. reflexivity.
+Qed.
+
+Lemma C_ext_back : forall L st st', log_le st st' -> ext_of L st' -> ext_of L st.
+Proof.
+  intros L st st' [e1 H1] [e2 H2]. exists (e1 ++ e2). rewrite H2, H1, app_assoc. reflexivity.
+Qed.
+
+Lemma C_pinv_init : forall T, pinv T {| p_tape := T; p_log := [] |}.
+Proof. intros T. exists []. split; reflexivity. Qed.
+
+Lemma C_ext_self : forall st, ext_of (p_log st) st.
+Proof. intros st. exists []. rewrite app_nil_r. reflexivity. Qed.
+
+Lemma C_solve_le : forall st R lim st1 o, solve st R lim = (st1, o) -> log_le st st1.
+Proof.
+  intros st R lim st1 o H. unfold solve in H. exists [{| k_ret := R; k_limit := lim |}].
+  destruct (p_tape st); inversion H; reflexivity.
+Qed.
+
+Lemma C_solve_ok : forall N S avoid L T st R lim st1 x,
+  tape_ok N S avoid L T -> pinv T st -> solve st R lim = (st1, Some x) -> ext_of L st1 ->
+  solve_ok N S avoid (nvars N) {| k_ret := R; k_limit := lim |} x /\ pinv T st1.
+Proof.
+  intros N S avoid L T st R lim st1 x HL [pre [HT Hpre]] H [e He]. unfold solve in H.
+  destruct (p_tape st) as [|y t] eqn:Et; [discriminate|]. inversion H; subst st1 y. clear H. simpl in He.
+  split.
+  - apply (HL (length (p_log st))).
+    + rewrite He, <- app_assoc. rewrite nth_error_app2 by lia. rewrite Nat.sub_diag. reflexivity.
+    + rewrite HT, <- Hpre. rewrite nth_error_app2 by lia. rewrite Nat.sub_diag. reflexivity.
+  - exists (pre ++ [x]). simpl. split; [rewrite <- app_assoc; exact HT|].
+    rewrite !app_length. simpl. lia.
+Qed.
+
+(* ------------------------------------------------------------------------------------------ *)
+(* 4. Retained-set bookkeeping                                                                 *)
+(* ------------------------------------------------------------------------------------------ *)
+Lemma C_ret_set_keys_in : forall v b R, In v (map fst R) -> map fst (ret_set v b R) = map fst R.
+Proof.
+  intros v b R. induction R as [|[w c] r IH]; intros H; [destruct H|]. simpl.
+  destruct (Nat.eqb w v) eqn:E; [reflexivity|]. simpl. f_equal. apply IH.
+  simpl in H. destruct H as [H|H]; [|exact H]. apply Nat.eqb_neq in E. contradiction.
+Qed.
+
+Lemma C_ret_set_keys_new : forall v b R, ~ In v (map fst R) -> map fst (ret_set v b R) = map fst R ++ [v].
+Proof.
+  intros v b R. induction R as [|[w c] r IH]; intros H; [reflexivity|]. simpl.
+  destruct (Nat.eqb w v) eqn:E.
+  - apply Nat.eqb_eq in E. exfalso. apply H. left. exact E.
+  - simpl. f_equal. apply IH. intros F. apply H. right. exact F.
+Qed.
+
+(* ------------------------------------------------------------------------------------------ *)
+(* 5. Greedy flips                                                                             *)
+(* ------------------------------------------------------------------------------------------ *)
+Lemma C_greedy_pass_cons : forall st pm v r R cands ch, cands <> [] ->
+  greedy_pass st pm (v :: r) R cands ch =
+  if pm && Nat.eqb (length cands) 1 then (st, Some (R, cands, ch, true)) else
+  let R2 := ret_set v (negb (ret_get v R)) R in
+  let '(st1, o) := solve st R2 (Some (length cands)) in
+  match o with
+  | None => (st1, None)
+  | Some c2 => if Nat.ltb (length c2) (length cands)
+               then greedy_pass st1 pm r R2 c2 true
+               else greedy_pass st1 pm r R cands ch
+  end.
+Proof. intros st pm v r R cands ch H. destruct cands; [congruence|reflexivity]. Qed.
+
+Lemma C_greedy_pass_le : forall pm vars st R cands ch st' o,
+  greedy_pass st pm vars R cands ch = (st', o) -> log_le st st'.
+Proof.
+  intros pm vars. induction vars as [|v r IH]; intros st R cands ch st' o H.
+  - simpl in H. inversion H. apply C_log_le_refl.
+  - destruct cands as [|c0 cs].
+    + simpl in H. inversion H. apply C_log_le_refl.
+    + rewrite C_greedy_pass_cons in H by discriminate.
+      destruct (pm && Nat.eqb (length (c0 :: cs)) 1); [inversion H; apply C_log_le_refl|].
+      cbv zeta in H.
+      destruct (solve st (ret_set v (negb (ret_get v R)) R) (Some (length (c0 :: cs)))) as [st1 o1] eqn:Es.
+      apply C_solve_le in Es. destruct o1 as [c2|]; [|inversion H; subst; exact Es].
+      destruct (Nat.ltb (length c2) (length (c0 :: cs))); apply IH in H; eapply C_log_le_trans; eassumption.
+Qed.
+
+Lemma C_greedy_loop_le : forall pm fuel st R cands st' o,
+  greedy_loop fuel st pm R cands = (st', o) -> log_le st st'.
+Proof.
+  intros pm fuel. induction fuel as [|f IH]; intros st R cands st' o H.
+  - simpl in H. inversion H. apply C_log_le_refl.
+  - simpl in H. destruct (greedy_pass st pm (map fst R) R cands false) as [st1 o1] eqn:Ep.
+    apply C_greedy_pass_le in Ep. destruct o1 as [[[[R1 c1] chg] early]|]; [|inversion H; subst; exact Ep].
+    destruct early; [inversion H; subst; exact Ep|].
+    destruct chg; [|inversion H; subst; exact Ep].
+    apply IH in H. eapply C_log_le_trans; eassumption.
+Qed.
+
+Section Greedy.
+Variables (N : net) (S : space) (avoid : list space) (L : list call) (T : list (list state)).
+Hypothesis HL : tape_ok N S avoid L T.
+
+Lemma C_greedy_pass_ok : forall pm vars st R cands ch st' R' cands' ch' early,
+  ext_of L st' -> pinv T st -> (forall v, In v vars -> In v (map fst R)) ->
+  complete_for N S avoid R cands ->
+  greedy_pass st pm vars R cands ch = (st', Some (R', cands', ch', early)) ->
+  pinv T st' /\ map fst R' = map fst R /\ complete_for N S avoid R' cands' /\ length cands' <= length cands.
+Proof.
+  intros pm vars. induction vars as [|v r IH]; intros st R cands ch st' R' cands' ch' early Hext Hinv Hvars Hc H.
+  - simpl in H. inversion H; subst. repeat split; try assumption; try apply Hc; lia.
+  - destruct cands as [|c0 cs].
+    + simpl in H. inversion H; subst. repeat split; try assumption; try apply Hc; lia.
+    + rewrite C_greedy_pass_cons in H by discriminate.
+      destruct (pm && Nat.eqb (length (c0 :: cs)) 1).
+      { inversion H; subst. repeat split; try assumption; try apply Hc; lia. }
+      cbv zeta in H.
+      destruct (solve st (ret_set v (negb (ret_get v R)) R) (Some (length (c0 :: cs)))) as [st1 o1] eqn:Es.
+      destruct o1 as [c2|]; [|discriminate].
+      assert (Hr : forall w, In w r -> In w (map fst R)) by (intros w Hw; apply Hvars; right; exact Hw).
+      assert (Hkeys : map fst (ret_set v (negb (ret_get v R)) R) = map fst R)
+        by (apply C_ret_set_keys_in; apply Hvars; left; reflexivity).
+      assert (Hext1 : ext_of L st1).
+      { destruct (Nat.ltb (length c2) (length (c0 :: cs))); apply C_greedy_pass_le in H;
+          exact (C_ext_back L _ _ H Hext). }
+      destruct (C_solve_ok N S avoid L T _ _ _ _ _ HL Hinv Es Hext1) as [Hok Hinv1].
+      destruct (Nat.ltb (length c2) (length (c0 :: cs))) eqn:Elt.
+      * apply Nat.ltb_lt in Elt.
+        assert (Hc2 : complete_for N S avoid (ret_set v (negb (ret_get v R)) R) c2)
+          by (eapply C_solve_complete_for; eassumption).
+        apply IH in H; try assumption.
+        -- destruct H as [H1 [H2 [H3 H4]]]. repeat split; try assumption; try apply H3; [congruence|lia].
+        -- intros w Hw. rewrite Hkeys. apply Hr. exact Hw.
+      * apply IH in H; assumption.
+Qed.
+
+Lemma C_greedy_loop_ok : forall pm fuel st R cands st' R' cands',
+  ext_of L st' -> pinv T st -> complete_for N S avoid R cands ->
+  greedy_loop fuel st pm R cands = (st', Some (R', cands')) ->
+  pinv T st' /\ map fst R' = map fst R /\ complete_for N S avoid R' cands' /\ length cands' <= length cands.
+Proof.
+  intros pm fuel. induction fuel as [|f IH]; intros st R cands st' R' cands' Hext Hinv Hc H.
+  - simpl in H. discriminate.
+  - simpl in H. destruct (greedy_pass st pm (map fst R) R cands false) as [st1 o1] eqn:Ep.
+    destruct o1 as [[[[R1 c1] chg] early]|]; [|discriminate].
+    assert (Hext1 : ext_of L st1).
+    { destruct early; [inversion H; subst; exact Hext|]. destruct chg; [|inversion H; subst; exact Hext].
+      apply C_greedy_loop_le in H. exact (C_ext_back L _ _ H Hext). }
+    destruct (C_greedy_pass_ok pm _ _ _ _ _ _ _ _ _ _ Hext1 Hinv (fun v Hv => Hv) Hc Ep) as [H1 [H2 [H3 H4]]].
+    destruct early; [inversion H; subst; repeat split; try assumption; apply H3|].
+    destruct chg; [|inversion H; subst; repeat split; try assumption; apply H3].
+    apply IH in H; try assumption. destruct H as [G1 [G2 [G3 G4]]].
+    repeat split; try assumption; try apply G3; [congruence|lia].
+Qed.
+End Greedy.
+
+Lemma C_total_keys : forall nfvs R R', retained_total nfvs R -> map fst R' = map fst R -> retained_total nfvs R'.
+Proof.
+  intros nfvs R R' [H1 H2] E. split; [rewrite E; exact H1|]. intros v. rewrite <- H2, !C_ret_mem_In, E. reflexivity.
+Qed.
+
+(* greedy flips keep a complete list for a total retained set.  [T] is the tape the pipeline
+   started from ([pinv T st]: the calls logged so far consumed the corresponding prefix of T) and the
+   contract is required of the log at the end of the loop. *)
+Theorem greedy_loop_complete : forall fuel N S avoid nfvs T st pm R cands st' R' cands',
+  retained_total nfvs R -> complete_for N S avoid R cands ->
+  greedy_loop fuel st pm R cands = (st', Some (R', cands')) ->
+  pinv T st -> tape_ok N S avoid (p_log st') T ->
+  retained_total nfvs R' /\ complete_for N S avoid R' cands'.
+Proof.
+  intros fuel N S avoid nfvs T st pm R cands st' R' cands' HR Hc H Hinv HL.
+  destruct (C_greedy_loop_ok N S avoid _ T HL pm fuel _ _ _ _ _ _ (C_ext_self st') Hinv Hc H) as [_ [H2 [H3 _]]].
+  split; [eapply C_total_keys; eassumption|exact H3].
+Qed.
+
+(* ------------------------------------------------------------------------------------------ *)
+(* 6. Regeneration loop                                                                        *)
+(* ------------------------------------------------------------------------------------------ *)
+Lemma C_regen_le : forall fuel cfg pm vars st R cands st' res R',
+  regen fuel st cfg pm vars R cands = (st', res, R') -> log_le st st'.
+Proof.
+  intros fuel cfg pm vars. induction vars as [|v r IH]; intros st R cands st' res R' H.
+  - simpl in H. inversion H. apply C_log_le_refl.
+  - simpl in H.
+    destruct (solve st (ret_set v false R) (Some (c_limit cfg))) as [st1 o0] eqn:Es0.
+    apply C_solve_le in Es0. destruct o0 as [zero|]; [|inversion H; subst; exact Es0].
+    destruct (Nat.leb (length zero) (length cands) && Nat.ltb (length zero) (c_limit cfg)).
+    { apply IH in H. eapply C_log_le_trans; eassumption. }
+    destruct (solve st1 (ret_set v true R) (Some (length zero))) as [st2 o1] eqn:Es1.
+    apply C_solve_le in Es1. assert (H02 : log_le st st2) by (eapply C_log_le_trans; eassumption).
+    destruct o1 as [one|]; [|inversion H; subst; exact H02].
+    destruct (Nat.eqb (length zero) (c_limit cfg) && Nat.eqb (length one) (c_limit cfg)).
+    { inversion H; subst; exact H02. }
+    destruct (Nat.leb (length one) (length cands)).
+    { apply IH in H. eapply C_log_le_trans; eassumption. }
+    destruct (if Nat.leb (length zero) (length one) then (ret_set v false R, zero) else (ret_set v true R, one))
+      as [Rn cn].
+    destruct (Nat.ltb (c_threshold cfg) (length cn)).
+    + destruct (greedy_loop fuel st2 pm Rn cn) as [st3 og] eqn:Eg. apply C_greedy_loop_le in Eg.
+      assert (H03 : log_le st st3) by (eapply C_log_le_trans; eassumption).
+      destruct og as [[Rg cg]|]; [|inversion H; subst; exact H03].
+      apply IH in H. eapply C_log_le_trans; eassumption.
+    + apply IH in H. eapply C_log_le_trans; eassumption.
+Qed.
+
+Section Regen.
+Variables (N : net) (S : space) (avoid : list space) (L : list call) (T : list (list state)).
+Hypothesis HL : tape_ok N S avoid L T.
+
+(* whatever the starting list, after the last variable the list is the complete set of reduced
+   fixed points of the final retained set, whose keys are the old keys followed by the variables;
+   with c_limit = 0 the loop never returns a list *)
+Lemma C_regen_ok : forall fuel cfg pm vars st R cands st' res R',
+  ext_of L st' -> pinv T st -> NoDup (map fst R ++ vars) ->
+  (vars = [] -> complete_for N S avoid R cands) ->
+  regen fuel st cfg pm vars R cands = (st', COk res, R') ->
+  pinv T st' /\ map fst R' = map fst R ++ vars /\ complete_for N S avoid R' res /\
+  (vars <> [] -> c_limit cfg <> 0).
+Proof.
+  intros fuel cfg pm vars. induction vars as [|v r IH]; intros st R cands st' res R' Hext Hinv Hnd Hc H.
+  - simpl in H. inversion H; subst. rewrite app_nil_r. repeat split; try assumption; try apply (Hc eq_refl).
+    intros F; congruence.
+  - assert (Hv : ~ In v (map fst R)).
+    { intros F. apply NoDup_remove_2 in Hnd. apply Hnd. apply in_or_app. left. exact F. }
+    assert (Hk0 : map fst (ret_set v false R) = map fst R ++ [v]) by (apply C_ret_set_keys_new; exact Hv).
+    assert (Hk1 : map fst (ret_set v true R) = map fst R ++ [v]) by (apply C_ret_set_keys_new; exact Hv).
+    (* continuation with a complete list for a retained set whose keys are [keys R ++ [v]] *)
+    assert (Hcont : forall stx Rn cn, pinv T stx -> map fst Rn = map fst R ++ [v] ->
+              complete_for N S avoid Rn cn -> c_limit cfg <> 0 ->
+              regen fuel stx cfg pm r Rn cn = (st', COk res, R') ->
+              pinv T st' /\ map fst R' = map fst R ++ v :: r /\ complete_for N S avoid R' res /\
+              (v :: r <> [] -> c_limit cfg <> 0)).
+    { intros stx Rn cn Hix Hkn Hcn Hlim Hx. apply IH in Hx; try assumption.
+      - destruct Hx as [G1 [G2 [G3 _]]]. rewrite Hkn, <- app_assoc in G2.
+        repeat split; try assumption; try apply G3. intros _. exact Hlim.
+      - rewrite Hkn, <- app_assoc. exact Hnd.
+      - intros _. exact Hcn. }
+    simpl in H.
+    destruct (solve st (ret_set v false R) (Some (c_limit cfg))) as [st1 o0] eqn:Es0.
+    destruct o0 as [zero|]; [|discriminate].
+    destruct (Nat.leb (length zero) (length cands) && Nat.ltb (length zero) (c_limit cfg)) eqn:Ea.
+    { assert (Hext1 : ext_of L st1) by (apply C_regen_le in H; exact (C_ext_back L _ _ H Hext)).
+      destruct (C_solve_ok N S avoid L T _ _ _ _ _ HL Hinv Es0 Hext1) as [Hok0 Hinv1].
+      apply andb_true_iff in Ea. destruct Ea as [_ Ea]. apply Nat.ltb_lt in Ea.
+      apply (Hcont st1 (ret_set v false R) zero); try assumption; [|lia].
+      eapply C_solve_complete_for; eassumption. }
+    destruct (solve st1 (ret_set v true R) (Some (length zero))) as [st2 o1] eqn:Es1.
+    destruct o1 as [one|]; [|discriminate].
+    destruct (Nat.eqb (length zero) (c_limit cfg) && Nat.eqb (length one) (c_limit cfg)) eqn:Eraise; [discriminate|].
+    assert (Hext2 : ext_of L st2).
+    { destruct (Nat.leb (length one) (length cands)).
+      - apply C_regen_le in H. exact (C_ext_back L _ _ H Hext).
+      - destruct (if Nat.leb (length zero) (length one) then (ret_set v false R, zero) else (ret_set v true R, one))
+          as [Rn cn].
+        destruct (Nat.ltb (c_threshold cfg) (length cn)).
+        + destruct (greedy_loop fuel st2 pm Rn cn) as [st3 og] eqn:Eg. apply C_greedy_loop_le in Eg.
+          destruct og as [[Rg cg]|]; [|discriminate]. apply C_regen_le in H.
+          exact (C_ext_back L _ _ Eg (C_ext_back L _ _ H Hext)).
+        + apply C_regen_le in H. exact (C_ext_back L _ _ H Hext). }
+    assert (Hext1 : ext_of L st1) by (apply C_solve_le in Es1; exact (C_ext_back L _ _ Es1 Hext2)).
+    destruct (C_solve_ok N S avoid L T _ _ _ _ _ HL Hinv Es0 Hext1) as [Hok0 Hinv1].
+    destruct (C_solve_ok N S avoid L T _ _ _ _ _ HL Hinv1 Es1 Hext2) as [Hok1 Hinv2].
+    assert (Hz : length zero <= c_limit cfg) by (eapply C_solve_length_le; eassumption).
+    assert (Ho : length one <= length zero) by (eapply C_solve_length_le; eassumption).
+    assert (Hnr : ~ (length zero = c_limit cfg /\ length one = c_limit cfg)).
+    { intros [F1 F2]. apply Nat.eqb_eq in F1, F2. rewrite F1, F2 in Eraise. discriminate. }
+    assert (Hlim : c_limit cfg <> 0) by (intros F; apply Hnr; lia).
+    assert (Hna : length cands < length zero \/ length zero = c_limit cfg).
+    { apply andb_false_iff in Ea. destruct Ea as [Ea|Ea].
+      - apply Nat.leb_gt in Ea. left. exact Ea.
+      - apply Nat.ltb_ge in Ea. right. lia. }
+    assert (Hzero_c : length zero < c_limit cfg -> complete_for N S avoid (ret_set v false R) zero)
+      by (intros F; eapply C_solve_complete_for; eassumption).
+    assert (Hone_c : length one < length zero -> complete_for N S avoid (ret_set v true R) one)
+      by (intros F; eapply C_solve_complete_for; eassumption).
+    destruct (Nat.leb (length one) (length cands)) eqn:Eb.
+    { apply Nat.leb_le in Eb. apply (Hcont st2 (ret_set v true R) one); try assumption.
+      apply Hone_c. destruct Hna as [Hna|Hna]; [lia|]. 
+      destruct (Nat.eq_dec (length one) (length zero)) as [E|E]; [|lia].
+      exfalso. apply Hnr. split; [exact Hna|lia]. }
+    assert (Hsel : exists Rn cn,
+               (if Nat.leb (length zero) (length one) then (ret_set v false R, zero) else (ret_set v true R, one))
+               = (Rn, cn) /\ map fst Rn = map fst R ++ [v] /\ complete_for N S avoid Rn cn).
+    { destruct (Nat.leb (length zero) (length one)) eqn:Ec.
+      - apply Nat.leb_le in Ec. exists (ret_set v false R), zero. split; [reflexivity|]. split; [exact Hk0|].
+        apply Hzero_c. destruct (Nat.eq_dec (length zero) (c_limit cfg)) as [E|E]; [|lia].
+        exfalso. apply Hnr. split; [exact E|lia].
+      - apply Nat.leb_gt in Ec. exists (ret_set v true R), one. split; [reflexivity|]. split; [exact Hk1|].
+        apply Hone_c. exact Ec. }
+    destruct Hsel as [Rn [cn [Esel [Hkn Hcn]]]]. rewrite Esel in H.
+    destruct (Nat.ltb (c_threshold cfg) (length cn)).
+    + destruct (greedy_loop fuel st2 pm Rn cn) as [st3 og] eqn:Eg.
+      destruct og as [[Rg cg]|]; [|discriminate].
+      assert (Hext3 : ext_of L st3) by (apply C_regen_le in H; exact (C_ext_back L _ _ H Hext)).
+      destruct (C_greedy_loop_ok N S avoid L T HL pm fuel _ _ _ _ _ _ Hext3 Hinv2 Hcn Eg) as [G1 [G2 [G3 _]]].
+      apply (Hcont st3 Rg cg); try assumption. congruence.
+    + apply (Hcont st2 Rn cn); assumption.
+Qed.
+End Regen.
+
+(* ------------------------------------------------------------------------------------------ *)
+(* 7. Simulation minification                                                                  *)
+(* ------------------------------------------------------------------------------------------ *)
+(* Walk contract.  The walk tape is consumed positionally while the candidate list shrinks, so
+   the contract follows the run: the walk handed to [sim_avoid] for candidate c visits only states
+   reachable from c; the move handed to [sim_min_round] for state c is reachable from c.  An
+   exhausted tape yields the empty walk / the state itself, which satisfy the contract. *)
+Fixpoint walks_for (N : net) (pending : list state) (walks : list (list state)) : Prop :=
+  match pending with
+  | [] => True
+  | c :: rest => (forall t, In t (hd [] walks) -> reach N c t) /\ walks_for N rest (tl walks)
+  end.
+
+Fixpoint moves_for (N : net) (pending : list state) (moves : list state) : Prop :=
+  match pending with
+  | [] => True
+  | c :: rest => reach N c (hd c moves) /\ moves_for N rest (tl moves)
+  end.
+
+Fixpoint sim_min_ok (N : net) (iters : nat) (cands : list state) (moves : list state) : Prop :=
+  match iters with
+  | O => True
+  | Datatypes.S k =>
+      moves_for N cands moves /\
+      let '(c1, m1) := sim_min_round cands [] moves in
+      if Nat.leb (length c1) 1 then True else sim_min_ok N k c1 m1
+  end.
+
+(* one round of sim_rounds *)
+Definition sim_step (avoid : list space) (iters : nat) (cands : list state) (tp : simtape)
+  : list state * simtape :=
+  match avoid with
+  | [] => let '(c1, m1) := sim_min iters cands (s_moves tp) in (c1, {| s_walks := s_walks tp; s_moves := m1 |})
+  | _ => let '(c1, w1) := sim_avoid avoid cands [] (s_walks tp) in (c1, {| s_walks := w1; s_moves := s_moves tp |})
+  end.
+
+Definition sim_step_ok (N : net) (avoid : list space) (iters : nat) (cands : list state) (tp : simtape) : Prop :=
+  match avoid with
+  | [] => sim_min_ok N iters cands (s_moves tp)
+  | _ => walks_for N cands (s_walks tp)
+  end.
+
+Fixpoint sim_rounds_ok (N : net) (rounds : nat) (avoid : list space) (nfree : nat) (cfg : ccfg) (iters : nat)
+         (cands : list state) (tp : simtape) : Prop :=
+  match rounds with
+  | O => True
+  | Datatypes.S r =>
+      match cands with
+      | [] => True
+      | _ =>
+          sim_step_ok N avoid iters cands tp /\
+          let '(reduced, tp1) := sim_step avoid iters cands tp in
+          if Nat.eqb (length reduced) (length cands) && Nat.ltb (c_budget cfg * nfree) (iters * length cands)
+          then True
+          else if Nat.eqb (length reduced) 1 && (match avoid with [] => true | _ => false end) then True
+          else sim_rounds_ok N r avoid nfree cfg (2 * iters) reduced tp1
+      end
+  end.
+
+Lemma C_sim_rounds_S : forall r avoid nfree cfg iters cands tp, cands <> [] ->
+  sim_rounds (Datatypes.S r) avoid nfree cfg iters cands tp =
+  let '(reduced, tp1) := sim_step avoid iters cands tp in
+  if Nat.eqb (length reduced) (length cands) && Nat.ltb (c_budget cfg * nfree) (iters * length cands)
+  then reduced
+  else if Nat.eqb (length reduced) 1 && (match avoid with [] => true | _ => false end) then reduced
+  else sim_rounds r avoid nfree cfg (2 * iters) reduced tp1.
+Proof. intros r avoid nfree cfg iters cands tp H. destruct cands; [congruence|reflexivity]. Qed.
+
+Lemma C_last_in : forall (w : list state) a c, In (last (a :: w) c) (a :: w).
+Proof.
+  induction w as [|b w IH]; intros a c; [left; reflexivity|].
+  right. change (last (a :: b :: w) c) with (last (b :: w) c). apply IH.
+Qed.
+
+Lemma C_last_cases : forall (w : list state) c, last w c = c \/ In (last w c) w.
+Proof. intros [|a w] c; [left; reflexivity|right; apply C_last_in]. Qed.
+
+Section Sim.
+Variables (N : net) (S : space) (avoid : list space).
+Hypothesis HS : trap_space N S.
+Hypothesis Havoid : forall a, In a avoid -> trap_space N a.
+
+Lemma C_reach_in_S : forall c t, in_space c S = true -> reach N c t -> in_space t S = true.
+Proof.
+  intros c t Hc Hr. apply (trap_reach_inside N S c t HS); try assumption.
+  apply (in_space_wf N c S); [apply trap_space_length; exact HS|exact Hc].
+Qed.
+
+Lemma C_attr_closed_reach : forall av (A : state -> Prop) c t, node_attr N S av A -> A c -> reach N c t -> A t.
+Proof.
+  intros av A c t [[_ [_ [Hcl _]]] _] Hc Hr. exact (A_closed_reach N A c t Hcl Hc Hr).
+Qed.
+
+Lemma C_sim_avoid_inv : forall av pending kept walks res w',
+  (forall a, In a av -> In a avoid) ->
+  walks_for N pending walks -> (forall c, In c (pending ++ kept) -> in_space c S = true) ->
+  sim_avoid av pending kept walks = (res, w') ->
+  (forall c, In c res -> in_space c S = true) /\
+  forall A, node_attr N S av A -> (exists c, In c (pending ++ kept) /\ A c) -> exists c, In c res /\ A c.
+Proof.
+  intros av pending. induction pending as [|c rest IH]; intros kept walks res w' Hav Hw HinS H.
+  - simpl in H. inversion H; subst. split.
+    + intros c Hc. apply HinS. simpl. apply in_rev. exact Hc.
+    + intros A _ [c [Hc Ac]]. exists c. split; [apply in_rev in Hc; exact Hc|exact Ac].
+  - simpl in H. destruct Hw as [Hw1 Hw2].
+    assert (HcS : in_space c S = true) by (apply HinS; left; reflexivity).
+    destruct (existsb (fun t => mem_state t (rest ++ kept) || existsb (in_space t) av) (hd [] walks)) eqn:Ehit.
+    + apply IH in H; try assumption.
+      2:{ intros x Hx. apply HinS. right. exact Hx. }
+      destruct H as [H1 H2]. split; [exact H1|]. intros A HA [c0 [Hc0 Ac0]]. apply (H2 A HA).
+      simpl in Hc0. destruct Hc0 as [Hc0|Hc0]; [|exists c0; split; assumption]. subst c0.
+      apply existsb_exists in Ehit. destruct Ehit as [t [Ht Et]].
+      assert (At : A t) by (apply (C_attr_closed_reach av A c t HA Ac0); apply Hw1; exact Ht).
+      apply orb_true_iff in Et. destruct Et as [Et|Et].
+      * apply mem_state_spec in Et. exists t. split; assumption.
+      * exfalso. apply existsb_exists in Et. destruct Et as [a [Ha Eta]].
+        destruct HA as [HattrA [_ Hnot]]. apply Hnot. exists a. split; [exact Ha|].
+        apply (attractor_meets_trap N A a t HattrA (Havoid a (Hav a Ha)) At Eta).
+    + assert (Hlast : reach N c (last (hd [] walks) c)).
+      { destruct (C_last_cases (hd [] walks) c) as [E|E]; [rewrite E; apply A_reach_refl|apply Hw1; exact E]. }
+      apply IH in H; try assumption.
+      2:{ intros x Hx. apply in_app_or in Hx. destruct Hx as [Hx|[Hx|Hx]].
+          - apply HinS. right. apply in_or_app. left. exact Hx.
+          - subst x. apply (C_reach_in_S c _ HcS Hlast).
+          - apply HinS. right. apply in_or_app. right. exact Hx. }
+      destruct H as [H1 H2]. split; [exact H1|]. intros A HA [c0 [Hc0 Ac0]]. apply (H2 A HA).
+      simpl in Hc0. destruct Hc0 as [Hc0|Hc0].
+      * subst c0. exists (last (hd [] walks) c). split; [apply in_or_app; right; left; reflexivity|].
+        exact (C_attr_closed_reach av A c _ HA Ac0 Hlast).
+      * exists c0. split; [|exact Ac0]. apply in_app_or in Hc0. apply in_or_app.
+        destruct Hc0 as [Hc0|Hc0]; [left; exact Hc0|right; right; exact Hc0].
+Qed.
+
+(* sim_avoid started with kept = [] on a covering candidate list inside S: the returned list
+   covers and lies in S *)
+Theorem sim_avoid_covers : forall cands walks res w',
+  (forall c, In c cands -> in_space c S = true) -> covers N S avoid cands ->
+  walks_for N cands walks ->
+  sim_avoid avoid cands [] walks = (res, w') ->
+  (forall c, In c res -> in_space c S = true) /\ covers N S avoid res.
+Proof.
+  intros cands walks res w' HinS Hcov Hw H.
+  destruct (C_sim_avoid_inv avoid cands [] walks res w' (fun a Ha => Ha) Hw) with (2 := H) as [H1 H2].
+  { intros c Hc. rewrite app_nil_r in Hc. apply HinS. exact Hc. }
+  split; [exact H1|]. intros A HA. apply (H2 A HA). destruct (Hcov A HA) as [c [Hc Ac]].
+  exists c. split; [rewrite app_nil_r; exact Hc|exact Ac].
+Qed.
+
+Lemma C_sim_min_round_inv : forall pending newc moves res m',
+  moves_for N pending moves -> (forall c, In c (pending ++ newc) -> in_space c S = true) ->
+  sim_min_round pending newc moves = (res, m') ->
+  (forall c, In c res -> in_space c S = true) /\
+  forall A : state -> Prop, closed N A -> (exists c, In c (pending ++ newc) /\ A c) -> exists c, In c res /\ A c.
+Proof.
+  intros pending. induction pending as [|c rest IH]; intros newc moves res m' Hm HinS H.
+  - simpl in H. inversion H; subst. split.
+    + intros c Hc. apply HinS. simpl. apply in_rev. exact Hc.
+    + intros A _ [c [Hc Ac]]. exists c. split; [apply in_rev in Hc; exact Hc|exact Ac].
+  - simpl in H. destruct Hm as [Hm1 Hm2].
+    assert (HcS : in_space c S = true) by (apply HinS; left; reflexivity).
+    destruct (mem_state (hd c moves) rest || mem_state (hd c moves) newc) eqn:Ehit.
+    + apply IH in H; try assumption.
+      2:{ intros x Hx. apply HinS. right. exact Hx. }
+      destruct H as [H1 H2]. split; [exact H1|]. intros A HA [c0 [Hc0 Ac0]]. apply (H2 A HA).
+      simpl in Hc0. destruct Hc0 as [Hc0|Hc0]; [|exists c0; split; assumption]. subst c0.
+      exists (hd c moves). split; [|exact (A_closed_reach N A c _ HA Ac0 Hm1)].
+      apply in_or_app. apply orb_true_iff in Ehit. destruct Ehit as [E|E]; apply mem_state_spec in E; tauto.
+    + apply IH in H; try assumption.
+      2:{ intros x Hx. apply in_app_or in Hx. destruct Hx as [Hx|[Hx|Hx]].
+          - apply HinS. right. apply in_or_app. left. exact Hx.
+          - subst x. apply (C_reach_in_S c _ HcS Hm1).
+          - apply HinS. right. apply in_or_app. right. exact Hx. }
+      destruct H as [H1 H2]. split; [exact H1|]. intros A HA [c0 [Hc0 Ac0]]. apply (H2 A HA).
+      simpl in Hc0. destruct Hc0 as [Hc0|Hc0].
+      * subst c0. exists (hd c moves). split; [apply in_or_app; right; left; reflexivity|].
+        exact (A_closed_reach N A c _ HA Ac0 Hm1).
+      * exists c0. split; [|exact Ac0]. apply in_app_or in Hc0. apply in_or_app.
+        destruct Hc0 as [Hc0|Hc0]; [left; exact Hc0|right; right; exact Hc0].
+Qed.
+
+Lemma C_sim_min_inv : forall iters cands moves res m',
+  sim_min_ok N iters cands moves -> (forall c, In c cands -> in_space c S = true) ->
+  sim_min iters cands moves = (res, m') ->
+  (forall c, In c res -> in_space c S = true) /\
+  forall A : state -> Prop, closed N A -> (exists c, In c cands /\ A c) -> exists c, In c res /\ A c.
+Proof.
+  intros iters. induction iters as [|k IH]; intros cands moves res m' Hok HinS H.
+  - simpl in H. inversion H; subst. split; [exact HinS|]. intros A _ HA. exact HA.
+  - simpl in H. simpl in Hok. destruct Hok as [Hm Hok].
+    destruct (sim_min_round cands [] moves) as [c1 m1] eqn:Er.
+    destruct (C_sim_min_round_inv cands [] moves c1 m1 Hm) with (2 := Er) as [R1 R2].
+    { intros c Hc. rewrite app_nil_r in Hc. apply HinS. exact Hc. }
+    assert (R2' : forall A : state -> Prop, closed N A -> (exists c, In c cands /\ A c) -> exists c, In c c1 /\ A c).
+    { intros A HA [c [Hc Ac]]. apply (R2 A HA). exists c. split; [rewrite app_nil_r; exact Hc|exact Ac]. }
+    destruct (Nat.leb (length c1) 1).
+    + inversion H; subst. split; assumption.
+    + destruct (IH c1 m1 res m' Hok R1 H) as [G1 G2]. split; [exact G1|].
+      intros A HA Hex. apply (G2 A HA). apply (R2' A HA). exact Hex.
+Qed.
+
+(* sim_min keeps a member of every attractor (of every closed set) that had one; stated for an
+   arbitrary avoid list, in particular for avoid = [] where the pipeline uses it *)
+Theorem sim_min_covers : forall iters cands moves res m',
+  (forall c, In c cands -> in_space c S = true) -> covers N S avoid cands ->
+  sim_min_ok N iters cands moves ->
+  sim_min iters cands moves = (res, m') ->
+  (forall c, In c res -> in_space c S = true) /\ covers N S avoid res.
+Proof.
+  intros iters cands moves res m' HinS Hcov Hok H.
+  destruct (C_sim_min_inv iters cands moves res m' Hok HinS H) as [H1 H2]. split; [exact H1|].
+  intros A HA. apply H2; [destruct HA as [[_ [_ [Hcl _]]] _]; exact Hcl|]. exact (Hcov A HA).
+Qed.
+
+Lemma C_sim_step_covers : forall iters cands tp reduced tp1,
+  (forall c, In c cands -> in_space c S = true) -> covers N S avoid cands ->
+  sim_step_ok N avoid iters cands tp ->
+  sim_step avoid iters cands tp = (reduced, tp1) ->
+  (forall c, In c reduced -> in_space c S = true) /\ covers N S avoid reduced.
+Proof.
+  intros iters cands tp reduced tp1 HinS Hcov Hok H. unfold sim_step, sim_step_ok in *.
+  destruct avoid as [|a0 av] eqn:Eav.
+  - destruct (sim_min iters cands (s_moves tp)) as [c1 m1] eqn:Em. inversion H; subst reduced tp1.
+    rewrite <- Eav in Hcov |- *. eapply sim_min_covers; eassumption.
+  - rewrite <- Eav in *. destruct (sim_avoid avoid cands [] (s_walks tp)) as [c1 w1] eqn:Ea.
+    inversion H; subst reduced tp1. eapply sim_avoid_covers; eassumption.
+Qed.
+
+Theorem sim_rounds_covers : forall rounds nfree cfg iters cands tp,
+  (forall c, In c cands -> in_space c S = true) -> covers N S avoid cands ->
+  sim_rounds_ok N rounds avoid nfree cfg iters cands tp ->
+  (forall c, In c (sim_rounds rounds avoid nfree cfg iters cands tp) -> in_space c S = true) /\
+  covers N S avoid (sim_rounds rounds avoid nfree cfg iters cands tp).
+Proof.
+  intros rounds nfree cfg. induction rounds as [|r IH]; intros iters cands tp HinS Hcov Hok.
+  - simpl. split; assumption.
+  - destruct cands as [|c0 cs] eqn:Ec; [simpl; split; assumption|]. rewrite <- Ec in *.
+    assert (Hne : cands <> []) by (rewrite Ec; discriminate).
+    rewrite C_sim_rounds_S by exact Hne.
+    assert (Hok' : sim_step_ok N avoid iters cands tp /\
+              let '(reduced, tp1) := sim_step avoid iters cands tp in
+              if Nat.eqb (length reduced) (length cands) && Nat.ltb (c_budget cfg * nfree) (iters * length cands)
+              then True
+              else if Nat.eqb (length reduced) 1 && (match avoid with [] => true | _ => false end) then True
+              else sim_rounds_ok N r avoid nfree cfg (2 * iters) reduced tp1).
+    { rewrite Ec in Hok |- *. exact Hok. }
+    clear Hok. destruct Hok' as [Hs Hok].
+    destruct (sim_step avoid iters cands tp) as [reduced tp1] eqn:Es.
+    destruct (C_sim_step_covers iters cands tp reduced tp1 HinS Hcov Hs Es) as [G1 G2].
+    destruct (Nat.eqb (length reduced) (length cands) && Nat.ltb (c_budget cfg * nfree) (iters * length cands));
+      [split; assumption|].
+    destruct (Nat.eqb (length reduced) 1 && (match avoid with [] => true | _ => false end)); [split; assumption|].
+    apply IH; assumption.
+Qed.
+End Sim.
+
+(* ------------------------------------------------------------------------------------------ *)
+(* 8. The pipeline: separating the simulation step                                             *)
+(* ------------------------------------------------------------------------------------------ *)
+(* [finish_fn] is the local function `finish` of compute_candidates; [pre_candidates] is
+   compute_candidates up to the call of `finish` (proof device; C_cc_pre shows that
+   compute_candidates is exactly their composition, for every value of `simulation`). *)
+Definition finish_fn (pm simulation : bool) (fuel : nat) (avoid : list space) (nf : nat) (cfg : ccfg)
+           (stp : simtape) (st : pst) (cands : list state) : cres * list call :=
+  match cands with
+  | [] => (COk [], p_log st)
+  | _ =>
+      if pm && Nat.eqb (length cands) 1 then (COk cands, p_log st) else
+      if simulation then (COk (sim_rounds fuel avoid nf cfg 1024 cands stp), p_log st)
+      else (COk cands, p_log st)
+  end.
+
+Inductive pre_res := PFinal (r : cres * list call) | PFinish (st : pst) (cands : list state).
+
+Definition full_state (S : space) : state := map (fun o => match o with Some b => b | None => false end) S.
+
+Definition pre_candidates (fuel : nat) (N : net) (S : space) (avoid : list space) (nfvs : list nat)
+           (Rinit : retained) (cfg : ccfg) (greedy : bool) (tape : list (list state)) : pre_res :=
+  let pseudo_min := match avoid with [] => true | _ => false end in
+  if is_full S then PFinal (COk [full_state S], []) else
+  if (match nfvs with [] => true | _ => false end) && negb pseudo_min then PFinal (COk [], []) else
+  let st0 := {| p_tape := tape; p_log := [] |} in
+  if negb greedy then
+    let '(st1, o) := solve st0 Rinit (Some (c_limit cfg)) in
+    match o with
+    | None => PFinal (CTapeEnd, p_log st1)
+    | Some c => if Nat.eqb (length c) (c_limit cfg) then PFinal (CRaised, p_log st1) else PFinish st1 c
+    end
+  else
+    let '(st1, o) := solve st0 Rinit (Some (c_threshold cfg)) in
+    match o with
+    | None => PFinal (CTapeEnd, p_log st1)
+    | Some c =>
+        if Nat.ltb (length c) (c_threshold cfg) then
+          if Nat.ltb 1 (length c) || (negb pseudo_min && Nat.ltb 0 (length c)) then
+            let '(st2, og) := greedy_loop fuel st1 pseudo_min Rinit c in
+            match og with
+            | None => PFinal (CTapeEnd, p_log st2)
+            | Some (_, cg) => PFinish st2 cg
+            end
+          else PFinish st1 c
+        else
+          match nfvs with
+          | [] =>
+              let '(st2, o2) := solve st1 [] (Some (c_limit cfg)) in
+              match o2 with
+              | None => PFinal (CTapeEnd, p_log st2)
+              | Some c2 => if Nat.eqb (length c2) (c_limit cfg) then PFinal (CRaised, p_log st2) else PFinish st2 c2
+              end
+          | _ =>
+              let '(st2, r, _) := regen fuel st1 cfg pseudo_min nfvs [] [] in
+              match r with
+              | COk cr => PFinish st2 cr
+              | other => PFinal (other, p_log st2)
+              end
+          end
+    end.
+
+Lemma C_cc_pre : forall fuel N S avoid nfvs Rinit cfg greedy simulation tape stp,
+  compute_candidates fuel N S avoid nfvs Rinit cfg greedy simulation tape stp =
+  match pre_candidates fuel N S avoid nfvs Rinit cfg greedy tape with
+  | PFinal r => r
+  | PFinish st cands =>
+      finish_fn (match avoid with [] => true | _ => false end) simulation fuel avoid (nfree S) cfg stp st cands
+  end.
+Proof.
+  intros fuel N S avoid nfvs Rinit cfg greedy simulation tape stp.
+  unfold compute_candidates, pre_candidates, finish_fn, full_state.
+  destruct (is_full S); [reflexivity|].
+  destruct ((match nfvs with [] => true | _ => false end) && negb (match avoid with [] => true | _ => false end));
+    [reflexivity|].
+  cbv zeta. destruct (negb greedy).
+  - destruct (solve {| p_tape := tape; p_log := [] |} Rinit (Some (c_limit cfg))) as [st1 [c|]]; [|reflexivity].
+    destruct (Nat.eqb (length c) (c_limit cfg)); reflexivity.
+  - destruct (solve {| p_tape := tape; p_log := [] |} Rinit (Some (c_threshold cfg))) as [st1 [c|]]; [|reflexivity].
+    destruct (Nat.ltb (length c) (c_threshold cfg)).
+    + destruct (Nat.ltb 1 (length c) || (negb (match avoid with [] => true | _ => false end) && Nat.ltb 0 (length c)));
+        [|reflexivity].
+      destruct (greedy_loop fuel st1 (match avoid with [] => true | _ => false end) Rinit c) as [st2 [[Rg cg]|]];
+        reflexivity.
+    + destruct nfvs as [|v0 vs].
+      * destruct (solve st1 [] (Some (c_limit cfg))) as [st2 [c2|]]; [|reflexivity].
+        destruct (Nat.eqb (length c2) (c_limit cfg)); reflexivity.
+      * destruct (regen fuel st1 cfg (match avoid with [] => true | _ => false end) (v0 :: vs) [] []) as [[st2 r] R'].
+        destruct r; reflexivity.
+Qed.
+
+Lemma C_finish_false : forall pm fuel avoid nf cfg stp st cands,
+  finish_fn pm false fuel avoid nf cfg stp st cands = (COk cands, p_log st).
+Proof.
+  intros pm fuel avoid nf cfg stp st cands. unfold finish_fn. destruct cands; [reflexivity|].
+  destruct (pm && Nat.eqb (length (s :: cands)) 1); reflexivity.
+Qed.
+
+Lemma C_finish_cases : forall pm simulation fuel avoid nf cfg stp st cands res log,
+  finish_fn pm simulation fuel avoid nf cfg stp st cands = (COk res, log) ->
+  log = p_log st /\ (res = cands \/ (simulation = true /\ res = sim_rounds fuel avoid nf cfg 1024 cands stp)).
+Proof.
+  intros pm simulation fuel avoid nf cfg stp st cands res log H. unfold finish_fn in H.
+  destruct cands as [|c0 cs]; [inversion H; split; [reflexivity|left; reflexivity]|].
+  destruct (pm && Nat.eqb (length (c0 :: cs)) 1); [inversion H; split; [reflexivity|left; reflexivity]|].
+  destruct simulation; inversion H; split; try reflexivity; [right; split; reflexivity|left; reflexivity].
+Qed.
+
+Lemma C_total_nil : retained_total [] [].
+Proof. split; [constructor|]. intros v. simpl. split; [discriminate|intros []]. Qed.
+
+(* every list handed to `finish` is the complete set of reduced fixed points of a total retained
+   assignment; with c_limit = 0 this only happens on the greedy small-list path *)
+Lemma C_pre_finish : forall fuel N S avoid nfvs Rinit cfg greedy tape st cands,
+  NoDup nfvs -> retained_total nfvs Rinit ->
+  pre_candidates fuel N S avoid nfvs Rinit cfg greedy tape = PFinish st cands ->
+  tape_ok N S avoid (p_log st) tape ->
+  exists R, retained_total nfvs R /\ complete_for N S avoid R cands /\
+            (c_limit cfg = 0 -> greedy = true /\ length cands < c_threshold cfg).
+Proof.
+  intros fuel N S avoid nfvs Rinit cfg greedy tape st cands Hnd HRi H HL.
+  unfold pre_candidates in H.
+  destruct (is_full S); [discriminate|].
+  destruct ((match nfvs with [] => true | _ => false end) && negb (match avoid with [] => true | _ => false end));
+    [discriminate|].
+  cbv zeta in H. set (pm := match avoid with [] => true | _ => false end) in *.
+  pose proof (C_pinv_init tape) as Hinv0.
+  destruct greedy; simpl negb in H; cbv iota in H.
+  - (* greedy *)
+    destruct (solve {| p_tape := tape; p_log := [] |} Rinit (Some (c_threshold cfg))) as [st1 [c|]] eqn:Es0;
+      [|discriminate].
+    assert (Hext1 : ext_of (p_log st) st1).
+    { destruct (Nat.ltb (length c) (c_threshold cfg)).
+      - destruct (Nat.ltb 1 (length c) || (negb pm && Nat.ltb 0 (length c))).
+        + destruct (greedy_loop fuel st1 pm Rinit c) as [st2 [[Rg cg]|]] eqn:Eg; [|discriminate].
+          inversion H; subst st2 cg. apply C_greedy_loop_le in Eg. exact (C_ext_back _ _ _ Eg (C_ext_self st)).
+        + inversion H; subst. apply C_ext_self.
+      - destruct nfvs as [|v0 vs].
+        + destruct (solve st1 [] (Some (c_limit cfg))) as [st2 [c2|]] eqn:Es1; [|discriminate].
+          destruct (Nat.eqb (length c2) (c_limit cfg)); [discriminate|]. inversion H; subst st2 c2.
+          apply C_solve_le in Es1. exact (C_ext_back _ _ _ Es1 (C_ext_self st)).
+        + destruct (regen fuel st1 cfg pm (v0 :: vs) [] []) as [[st2 r] R'] eqn:Er.
+          destruct r; try discriminate. inversion H; subst st2 l. apply C_regen_le in Er.
+          exact (C_ext_back _ _ _ Er (C_ext_self st)). }
+    destruct (C_solve_ok N S avoid _ tape _ _ _ _ _ HL Hinv0 Es0 Hext1) as [Hok0 Hinv1].
+    destruct (Nat.ltb (length c) (c_threshold cfg)) eqn:Elt.
+    + apply Nat.ltb_lt in Elt.
+      assert (Hc : complete_for N S avoid Rinit c) by (eapply C_solve_complete_for; eassumption).
+      destruct (Nat.ltb 1 (length c) || (negb pm && Nat.ltb 0 (length c))).
+      * destruct (greedy_loop fuel st1 pm Rinit c) as [st2 [[Rg cg]|]] eqn:Eg; [|discriminate].
+        inversion H; subst st2 cg.
+        destruct (C_greedy_loop_ok N S avoid _ tape HL pm fuel _ _ _ _ _ _ (C_ext_self st) Hinv1 Hc Eg)
+          as [_ [G2 [G3 G4]]].
+        exists Rg. split; [eapply C_total_keys; eassumption|]. split; [exact G3|]. intros _. split; [reflexivity|lia].
+      * inversion H; subst st1 c. exists Rinit. split; [exact HRi|]. split; [exact Hc|]. intros _. split; [reflexivity|exact Elt].
+    + destruct nfvs as [|v0 vs].
+      * destruct (solve st1 [] (Some (c_limit cfg))) as [st2 [c2|]] eqn:Es1; [|discriminate].
+        destruct (Nat.eqb (length c2) (c_limit cfg)) eqn:Eraise; [discriminate|]. inversion H; subst st2 c2.
+        destruct (C_solve_ok N S avoid _ tape _ _ _ _ _ HL Hinv1 Es1 (C_ext_self st)) as [Hok1 _].
+        apply Nat.eqb_neq in Eraise. pose proof (C_solve_length_le _ _ _ _ _ _ Hok1) as Hle.
+        exists []. split; [exact C_total_nil|]. split; [eapply C_solve_complete_for; [eassumption|lia]|].
+        intros F. lia.
+      * destruct (regen fuel st1 cfg pm (v0 :: vs) [] []) as [[st2 r] R'] eqn:Er.
+        destruct r as [|cr|]; try discriminate. inversion H; subst st2 cr.
+        destruct (C_regen_ok N S avoid _ tape HL fuel cfg pm (v0 :: vs) st1 [] [] st cands R' (C_ext_self st) Hinv1)
+          with (3 := Er) as [_ [G2 [G3 G4]]].
+        { simpl. exact Hnd. }
+        { intros F. discriminate. }
+        exists R'. split; [apply C_total_of_keys; assumption|]. split; [exact G3|].
+        intros F. exfalso. apply G4; [discriminate|exact F].
+  - (* single solver call *)
+    destruct (solve {| p_tape := tape; p_log := [] |} Rinit (Some (c_limit cfg))) as [st1 [c|]] eqn:Es0;
+      [|discriminate].
+    destruct (Nat.eqb (length c) (c_limit cfg)) eqn:Eraise; [discriminate|]. inversion H; subst st1 c.
+    destruct (C_solve_ok N S avoid _ tape _ _ _ _ _ HL Hinv0 Es0 (C_ext_self st)) as [Hok0 _].
+    apply Nat.eqb_neq in Eraise. pose proof (C_solve_length_le _ _ _ _ _ _ Hok0) as Hle.
+    exists Rinit. split; [exact HRi|]. split; [eapply C_solve_complete_for; [eassumption|lia]|].
+    intros F. lia.
+Qed.
+
+Lemma C_pre_final : forall fuel N S avoid nfvs Rinit cfg greedy tape res log,
+  pre_candidates fuel N S avoid nfvs Rinit cfg greedy tape = PFinal (COk res, log) ->
+  (is_full S = true /\ res = [full_state S]) \/ (is_full S = false /\ nfvs = [] /\ avoid <> [] /\ res = []).
+Proof.
+  intros fuel N S avoid nfvs Rinit cfg greedy tape res log H. unfold pre_candidates in H.
+  destruct (is_full S); [left; inversion H; split; reflexivity|].
+  destruct ((match nfvs with [] => true | _ => false end) && negb (match avoid with [] => true | _ => false end)) eqn:Ee.
+  { right. inversion H. apply andb_true_iff in Ee. destruct Ee as [E1 E2].
+    destruct nfvs; [|discriminate]. destruct avoid; [discriminate|]. repeat split; [discriminate]. }
+  exfalso. cbv zeta in H. destruct (negb greedy).
+  - destruct (solve {| p_tape := tape; p_log := [] |} Rinit (Some (c_limit cfg))) as [st1 [c|]]; [|discriminate].
+    destruct (Nat.eqb (length c) (c_limit cfg)); discriminate.
+  - destruct (solve {| p_tape := tape; p_log := [] |} Rinit (Some (c_threshold cfg))) as [st1 [c|]]; [|discriminate].
+    destruct (Nat.ltb (length c) (c_threshold cfg)).
+    + destruct (Nat.ltb 1 (length c) || (negb (match avoid with [] => true | _ => false end) && Nat.ltb 0 (length c)));
+        [|discriminate].
+      destruct (greedy_loop fuel st1 (match avoid with [] => true | _ => false end) Rinit c) as [st2 [[Rg cg]|]];
+        discriminate.
+    + destruct nfvs as [|v0 vs].
+      * destruct (solve st1 [] (Some (c_limit cfg))) as [st2 [c2|]]; [|discriminate].
+        destruct (Nat.eqb (length c2) (c_limit cfg)); discriminate.
+      * destruct (regen fuel st1 cfg (match avoid with [] => true | _ => false end) (v0 :: vs) [] []) as [[st2 r] R'].
+        destruct r; discriminate.
+Qed.
+
+(* ------------------------------------------------------------------------------------------ *)
+(* 9. The early-exit branches                                                                  *)
+(* ------------------------------------------------------------------------------------------ *)
+Lemma C_full_state_in : forall S : space, is_full S = true -> in_space (full_state S) S = true.
+Proof.
+  induction S as [|o S IH]; intros H; [reflexivity|]. simpl in H. apply andb_true_iff in H. destruct H as [Ho H].
+  destruct o as [b|]; [|discriminate]. simpl. rewrite eqb_reflx. simpl. apply IH. exact H.
+Qed.
+
+Lemma C_full_state_unique : forall (S : space) s, is_full S = true -> in_space s S = true -> s = full_state S.
+Proof.
+  induction S as [|o S IH]; intros s H Hs.
+  - destruct s; [reflexivity|discriminate].
+  - destruct s as [|b s]; [discriminate|]. simpl in H, Hs. apply andb_true_iff in H. destruct H as [Ho H].
+    apply andb_true_iff in Hs. destruct Hs as [Hb Hs]. destruct o as [v|]; [|discriminate].
+    apply eqb_prop in Hb. subst v. simpl. f_equal. apply IH; assumption.
+Qed.
+
+Lemma C_full_covers : forall N S avoid, is_full S = true -> covers N S avoid [full_state S].
+Proof.
+  intros N S avoid Hf A [[[s As] _] [HinS _]]. exists (full_state S). split; [left; reflexivity|].
+  rewrite <- (C_full_state_unique S s Hf (HinS s As)). exact As.
+Qed.
+
+(* the extra hypothesis of the empty-NFVS early exit: every fixed point of the network inside
+   the node space lies in an avoided space *)
+Definition fixed_points_avoided (N : net) (S : space) (avoid : list space) : Prop :=
+  forall s, in_space s S = true -> (forall i, i < nvars N -> upd N i s = nth i s false) ->
+            exists a, In a avoid /\ in_space s a = true.
+
+Lemma C_red_fixed_top : forall N s (st : state) k i, length st = k ->
+  red_fixed_at N s i st (repeat None k) = true ->
+  forall j, j < k -> upd N (i + j) s = nth j st false.
+Proof.
+  intros N s st. induction st as [|b st IH]; intros k i Hlen H j Hj.
+  - simpl in Hlen. lia.
+  - destruct k as [|k]; [discriminate|]. simpl in H. apply andb_true_iff in H. destruct H as [H1 H2].
+    rewrite orb_false_r in H1. apply eqb_prop in H1. destruct j as [|j].
+    + rewrite Nat.add_0_r. simpl. exact H1.
+    + simpl. replace (i + Datatypes.S j) with (Datatypes.S i + j) by lia.
+      apply (IH k (Datatypes.S i)); [simpl in Hlen; lia|exact H2|lia].
+Qed.
+
+Lemma C_no_free_fixed_point : forall N S avoid, length S = nvars N -> fixed_points_avoided N S avoid ->
+  forall s, ~ In s (reduced_fixed_b N (top_space (nvars N)) S avoid).
+Proof.
+  intros N S avoid HS Hfp s Hs. unfold reduced_fixed_b in Hs. apply filter_In in Hs. destruct Hs as [Hs1 Hs2].
+  apply states_of_spec in Hs1. apply andb_true_iff in Hs2. destruct Hs2 as [Hf Hna].
+  assert (Hlen : length s = nvars N) by (rewrite <- HS; apply in_space_length; exact Hs1).
+  destruct (Hfp s Hs1) as [a [Ha Hsa]].
+  - intros i Hi. exact (C_red_fixed_top N s s (nvars N) 0 Hlen Hf i Hi).
+  - apply negb_true_iff in Hna. apply F_existsb_false in Hna. apply Hna. exists a. split; assumption.
+Qed.
+
+Lemma C_empty_nfvs_covers : forall N S avoid, length S = nvars N -> reduction_hyp N S avoid [] ->
+  fixed_points_avoided N S avoid -> covers N S avoid [].
+Proof.
+  intros N S avoid HS Hred Hfp. apply (C_covers_ext N S avoid [] _) with (2 := Hred [] C_total_nil).
+  intros s. simpl. split; [intros []|]. apply (C_no_free_fixed_point N S avoid HS Hfp).
+Qed.
+
+(* ------------------------------------------------------------------------------------------ *)
+(* 10. Main theorems                                                                           *)
+(* ------------------------------------------------------------------------------------------ *)
+(* Walk contract of the whole pipeline: the simulation tape is admissible for the candidate list
+   the pipeline hands to the simulation step (= the result with simulation switched off). *)
+Definition walks_ok (fuel : nat) (N : net) (S : space) (avoid : list space) (nfvs : list nat) (Rinit : retained)
+           (cfg : ccfg) (greedy : bool) (tape : list (list state)) (stp : simtape) : Prop :=
+  forall cands log,
+    compute_candidates fuel N S avoid nfvs Rinit cfg greedy false tape stp = (COk cands, log) ->
+    sim_rounds_ok N fuel avoid (nfree S) cfg 1024 cands stp.
+
+(* what a returned list is, before simulation: never a truncated list *)
+Theorem compute_candidates_complete : forall fuel N S avoid nfvs Rinit cfg greedy simulation tape stp res log,
+  NoDup nfvs -> retained_total nfvs Rinit ->
+  compute_candidates fuel N S avoid nfvs Rinit cfg greedy simulation tape stp = (COk res, log) ->
+  tape_ok N S avoid log tape ->
+  (is_full S = true /\ res = [full_state S]) \/
+  (is_full S = false /\ nfvs = [] /\ avoid <> [] /\ res = []) \/
+  (exists R cands,
+     retained_total nfvs R /\ complete_for N S avoid R cands /\
+     compute_candidates fuel N S avoid nfvs Rinit cfg greedy false tape stp = (COk cands, log) /\
+     (c_limit cfg = 0 -> greedy = true /\ length cands < c_threshold cfg) /\
+     (res = cands \/ (simulation = true /\ res = sim_rounds fuel avoid (nfree S) cfg 1024 cands stp))).
+Proof.
+  intros fuel N S avoid nfvs Rinit cfg greedy simulation tape stp res log Hnd HRi H HL.
+  rewrite C_cc_pre in H.
+  destruct (pre_candidates fuel N S avoid nfvs Rinit cfg greedy tape) as [r|st cands] eqn:Ep.
+  - subst r. apply C_pre_final in Ep. destruct Ep as [Ep|Ep]; [left; exact Ep|right; left; exact Ep].
+  - right. right. apply C_finish_cases in H. destruct H as [Hlog Hres]. subst log.
+    destruct (C_pre_finish _ _ _ _ _ _ _ _ _ _ _ Hnd HRi Ep HL) as [R [HR [Hc H0]]].
+    exists R, cands. split; [exact HR|]. split; [exact Hc|].
+    split; [rewrite C_cc_pre, Ep; apply C_finish_false|]. split; [exact H0|exact Hres].
+Qed.
+
+(* The main theorem.  Deviation from the intended statement (hence `_weak`): the early exit
+   "empty NFVS and non-empty avoid list => no candidates" needs the extra hypothesis
+   [fixed_points_avoided]; without it the statement is false, see
+   compute_candidates_covers_counterexample below. *)
+Theorem compute_candidates_covers_weak : forall fuel N S avoid nfvs Rinit cfg greedy simulation tape stp res log,
+  trap_space N S -> (forall a, In a avoid -> trap_space N a) -> NoDup nfvs -> (forall v, In v nfvs -> v < nvars N) ->
+  retained_total nfvs Rinit -> reduction_hyp N S avoid nfvs ->
+  (is_full S = false -> nfvs = [] -> avoid <> [] -> fixed_points_avoided N S avoid) ->
+  compute_candidates fuel N S avoid nfvs Rinit cfg greedy simulation tape stp = (COk res, log) ->
+  tape_ok N S avoid log tape -> walks_ok fuel N S avoid nfvs Rinit cfg greedy tape stp ->
+  (forall c, In c res -> in_space c S = true) /\ covers N S avoid res.
+Proof.
+  intros fuel N S avoid nfvs Rinit cfg greedy simulation tape stp res log HS Hav Hnd Hlt HRi Hred Hfp H HL Hw.
+  destruct (compute_candidates_complete _ _ _ _ _ _ _ _ _ _ _ _ _ Hnd HRi H HL)
+    as [[Hf E]|[[Hf [En [Ea E]]]|[R [cands [HR [Hc [Hpre [_ Hres]]]]]]]].
+  - subst res. split; [|apply C_full_covers; exact Hf].
+    intros c [Hc|[]]. subst c. apply C_full_state_in. exact Hf.
+  - subst res nfvs. split; [intros c []|].
+    apply C_empty_nfvs_covers; [apply trap_space_length; exact HS|exact Hred|]. apply Hfp; [exact Hf|reflexivity|exact Ea].
+  - assert (HinS : forall c, In c cands -> in_space c S = true)
+      by (intros c Hin; eapply C_complete_in_space; eassumption).
+    assert (Hcov : covers N S avoid cands) by (eapply C_complete_covers; eassumption).
+    destruct Hres as [E|[_ E]]; subst res; [split; assumption|].
+    apply (sim_rounds_covers N S avoid HS Hav); try assumption. exact (Hw cands log Hpre).
+Qed.
+
+(* the intended statement holds verbatim whenever the early exit is not taken *)
+Corollary compute_candidates_covers_nonempty : forall fuel N S avoid nfvs Rinit cfg greedy simulation tape stp res log,
+  trap_space N S -> (forall a, In a avoid -> trap_space N a) -> NoDup nfvs -> (forall v, In v nfvs -> v < nvars N) ->
+  retained_total nfvs Rinit -> reduction_hyp N S avoid nfvs ->
+  (is_full S = true \/ nfvs <> [] \/ avoid = []) ->
+  compute_candidates fuel N S avoid nfvs Rinit cfg greedy simulation tape stp = (COk res, log) ->
+  tape_ok N S avoid log tape -> walks_ok fuel N S avoid nfvs Rinit cfg greedy tape stp ->
+  (forall c, In c res -> in_space c S = true) /\ covers N S avoid res.
+Proof.
+  intros fuel N S avoid nfvs Rinit cfg greedy simulation tape stp res log HS Hav Hnd Hlt HRi Hred Hcase.
+  apply compute_candidates_covers_weak; try assumption.
+  intros Hf En Ea. exfalso. destruct Hcase as [F|[F|F]]; [congruence|exact (F En)|exact (Ea F)].
+Qed.
+
+(* with c_limit = 0 a returned list is never a truncated one: apart from the two early exits the
+   pipeline returns only on the greedy path whose first solver call stayed strictly below
+   c_threshold, and the list is the complete set of reduced fixed points of a total assignment
+   (every other path raises or runs out of tape) *)
+Theorem compute_candidates_limit0 : forall fuel N S avoid nfvs Rinit cfg greedy simulation tape stp res log,
+  NoDup nfvs -> retained_total nfvs Rinit -> c_limit cfg = 0 ->
+  compute_candidates fuel N S avoid nfvs Rinit cfg greedy simulation tape stp = (COk res, log) ->
+  tape_ok N S avoid log tape ->
+  (is_full S = true /\ res = [full_state S]) \/
+  (is_full S = false /\ nfvs = [] /\ avoid <> [] /\ res = []) \/
+  (greedy = true /\
+   exists R cands, retained_total nfvs R /\ complete_for N S avoid R cands /\ length cands < c_threshold cfg /\
+                   (res = cands \/ (simulation = true /\ res = sim_rounds fuel avoid (nfree S) cfg 1024 cands stp))).
+Proof.
+  intros fuel N S avoid nfvs Rinit cfg greedy simulation tape stp res log Hnd HRi H0 H HL.
+  destruct (compute_candidates_complete _ _ _ _ _ _ _ _ _ _ _ _ _ Hnd HRi H HL)
+    as [E|[E|[R [cands [HR [Hc [_ [Hl Hres]]]]]]]]; [left; exact E|right; left; exact E|].
+  right. right. destruct (Hl H0) as [Hg Hlen]. split; [exact Hg|]. exists R, cands. tauto.
+Qed.
+
+(* the intended statement (without fixed_points_avoided) is false: one variable with the identity
+   update function, node space = everything, the avoided space x0 = 1, empty NFVS.  The reduction
+   hypothesis holds (the reduced fixed point [false] hits the only attractor of the node, {[false]}),
+   but the pipeline returns the empty list. *)
+Theorem compute_candidates_covers_counterexample :
+  exists fuel N S avoid nfvs Rinit cfg greedy simulation tape stp res log,
+    trap_space N S /\ (forall a, In a avoid -> trap_space N a) /\ NoDup nfvs /\ (forall v, In v nfvs -> v < nvars N) /\
+    retained_total nfvs Rinit /\ reduction_hyp N S avoid nfvs /\
+    compute_candidates fuel N S avoid nfvs Rinit cfg greedy simulation tape stp = (COk res, log) /\
+    tape_ok N S avoid log tape /\ walks_ok fuel N S avoid nfvs Rinit cfg greedy tape stp /\
+    ~ covers N S avoid res.
+Proof.
+  exists 0, [fun s : state => nth 0 s false], [None], [[Some true]], [], [],
+         {| c_threshold := 0; c_limit := 0; c_budget := 0 |}, false, false, [],
+         {| s_walks := []; s_moves := [] |}, [], [].
+  split; [apply is_trap_b_spec; reflexivity|].
+  split; [intros a [Ha|[]]; subst a; apply is_trap_b_spec; reflexivity|].
+  split; [constructor|]. split; [intros v []|]. split; [exact C_total_nil|].
+  split; [apply nfvs_reduction_ok_b_spec; [reflexivity|constructor|intros v []|vm_compute; reflexivity]|].
+  split; [reflexivity|].
+  split; [intros i k res Hk _; destruct i; discriminate|].
+  split; [intros cands log _; exact I|].
+  intros Hcov. rewrite covers_iff in Hcov.
+  assert (Hin : In [[false]] (node_attractors_b [fun s : state => nth 0 s false] [None] [[Some true]]))
+    by (vm_compute; left; reflexivity).
+  specialize (Hcov _ Hin). discriminate.
+Qed.
+
+Print Assumptions compute_candidates_covers_weak.
+Print Assumptions compute_candidates_complete.
+Print Assumptions compute_candidates_limit0.
+Print Assumptions compute_candidates_covers_counterexample.
+Print Assumptions nfvs_reduction_ok_b_spec.
+Print Assumptions greedy_loop_complete.
+Print Assumptions sim_rounds_covers.
